@@ -135,7 +135,14 @@ def gen_literal(rng, refs):
     for _ in range(rng.choice([0, 0, 1, 2])):
         order.insert(rng.randrange(0, len(order) + 1), rng.choice(refs))
     parts = [rng.choice(SEGMENTS + ["t", "v"])]
+    # a quarter of the literals use bare placeholders only (no nested spec anywhere): the shape on which
+    # "simple case" fast paths are taken
+    all_bare = rng.random() < 0.25
     for (nm, cls) in order:
+        if all_bare:
+            parts.append("{%s}" % nm)
+            parts.append(rng.choice(SEGMENTS))
+            continue
         parts.append("{%s%s}" % (nm, rng.choice(INNER[cls]) if not ROBUST[0] else rng.choice(["", "", ":>4", ":<6", ":^5"])))
         parts.append(rng.choice(SEGMENTS))
     return "".join(parts)
